@@ -32,7 +32,13 @@ type tagCase struct {
 	Names []tagName `json:"names"`
 }
 
-var goNames = []string{"", "FieldOne", "Second", "HTTPCode", "InnerA", "InnerB2"}
+var goNames = func() []string {
+	n := []string{"", "FieldOne", "Second", "HTTPCode", "InnerA", "InnerB2"}
+	for i := 1; i <= 14; i++ {
+		n = append(n, fmt.Sprintf("W%02d", i))
+	}
+	return n
+}()
 
 func ceTag(tag string) reflect.StructTag {
 	switch tag {
@@ -105,23 +111,32 @@ func buildTagStruct(fields []tagField) (reflect.Type, [][]int) {
 	return reflect.StructOf(sf), paths
 }
 
-func setByClass(v reflect.Value, kind, val string) {
+// setByClass gives field idx a value of the class, different from every other field's,
+// and returns the token (norm.go vocabulary) that describes it.
+func setByClass(v reflect.Value, kind, val string, idx int) string {
 	switch kind {
 	case "number":
 		if val == "full" {
-			v.SetInt(7)
+			v.SetInt(int64(7 + idx))
+			return fmt.Sprintf("I:%d", 7+idx)
 		}
+		return "Z:+"
 	case "string":
 		if val == "full" {
-			v.SetString("x")
+			s := fmt.Sprintf("x%d", idx)
+			v.SetString(s)
+			return fmt.Sprintf("A:string:%d:%x", len(s), s)
 		}
+		return "A:string:0:"
 	default:
 		switch val {
 		case "empty":
 			v.Set(reflect.ValueOf([]int{}))
 		case "full":
-			v.Set(reflect.ValueOf([]int{1}))
+			v.Set(reflect.ValueOf([]int{idx + 1}))
+			return fmt.Sprintf("A:ai64:1:%02x00000000000000", idx+1)
 		}
+		return "A:ai64:0:"
 	}
 }
 
@@ -200,8 +215,14 @@ func checkC21(c *Check) {
 			st, paths = buildTagStruct(tc.Fields)
 		}()
 		v := reflect.New(st).Elem()
+		valueOfKey := map[string]string{}
 		for i, f := range tc.Fields {
-			setByClass(v.FieldByIndex(paths[i]), f.Kind, f.Val)
+			tok := setByClass(v.FieldByIndex(paths[i]), f.Kind, f.Val, i)
+			k := tc.Names[i].Go
+			if tc.Cfg.Style == "snake" {
+				k = tc.Names[i].Snake
+			}
+			valueOfKey[k] = tok
 		}
 		key := fmt.Sprintf("%+v|%+v", tc.Fields, tc.Cfg)
 		c.Count(key, true)
@@ -215,6 +236,24 @@ func checkC21(c *Check) {
 		if strings.Join(got, ",") != strings.Join(tc.Keys, ",") {
 			c.Violation(fmt.Sprintf("marshaling %s = %s emits keys %v; GoTags.tla EmittedKeys says %v", desc, absValue(v.Interface()), got, tc.Keys),
 				map[string]interface{}{"kind": "tags", "case": tc, "got_keys": got, "events": evsString(evs)})
+			continue
+		}
+		// every kept field appears once with the same contents
+		toks := normStream(evs, normOpts{})
+		if len(toks) >= 4 {
+			toks = toks[3 : len(toks)-2] // bd ver map ... end ed
+		}
+		bad := ""
+		if len(toks) != 2*len(got) {
+			bad = fmt.Sprintf("stream has %d items for %d keys", len(toks), len(got))
+		}
+		for i := 0; bad == "" && i < len(got); i++ {
+			if toks[2*i+1] != valueOfKey[got[i]] {
+				bad = fmt.Sprintf("key %q carries %s, the field holds %s", got[i], toks[2*i+1], valueOfKey[got[i]])
+			}
+		}
+		if bad != "" {
+			c.Violation(fmt.Sprintf("marshaling %s = %s: %s", desc, absValue(v.Interface()), bad), map[string]interface{}{"kind": "tags", "case": tc, "events": evsString(evs)})
 			continue
 		}
 		c.AddTraces(1)
